@@ -10,7 +10,8 @@ from .values import OutOfSubset, current, Sym
 
 
 class Rec:
-    def __init__(self, kind, *parts, attrs=None, callable_result=None, isinstance_of=(), truth=None, iterable=None):
+    def __init__(self, kind, *parts, attrs=None, callable_result=None, isinstance_of=(), truth=None, iterable=None,
+                 on_getitem=None, on_contains=None, on_eq=None):
         self.kind, self.parts = kind, parts
         self.attrs = dict(attrs or {})          # explicitly modelled attributes
         self.isinstance_of = tuple(isinstance_of)
@@ -18,6 +19,7 @@ class Rec:
         self.callable_result = callable_result
         self.iterable = iterable
         self.stores = {}
+        self.on_getitem, self.on_contains, self.on_eq = on_getitem, on_contains, on_eq
 
     # -- structure
     def key(self):
@@ -72,7 +74,17 @@ class Rec:
         k = _k(idx)
         if k in self.stores:
             return self.stores[k]
+        if self.on_getitem is not None:
+            return self.on_getitem(interp, self, idx)
         return Rec('item', self, idx)
+
+    def kvc_contains(self, interp, item):
+        if self.on_contains is None:
+            raise OutOfSubset(f'`in` on opaque {self!r}')
+        return self.on_contains(interp, self, item)
+
+    def kvc_instancecheck(self, interp, v):
+        return isinstance(v, Rec) and self.parts[0] in v.isinstance_of
 
     def kvc_setitem(self, interp, idx, v):
         interp.ctx.event('setitem', self, idx, v)
@@ -80,7 +92,7 @@ class Rec:
 
     def kvc_isinstance(self, interp, cls):
         classes = cls if isinstance(cls, tuple) else (cls,)
-        names = [getattr(c, '__name__', str(c)) for c in classes]
+        names = [c.parts[0] if isinstance(c, Rec) else getattr(c, '__name__', str(c)) for c in classes]
         return any(n in self.isinstance_of for n in names)
 
     def kvc_truth(self, interp):
@@ -107,6 +119,10 @@ class Rec:
         return Rec('unop', 'Invert', self)
 
     def kvc_eq(self, interp, other):
+        if self.on_eq is not None:
+            return self.on_eq(interp, self, other)
+        if isinstance(other, Rec) and other.on_eq is not None:
+            return other.on_eq(interp, other, self)
         if isinstance(other, Rec):
             return same(self, other)
         return False
